@@ -8,6 +8,7 @@
  *                              X zck_reset_failed_chunks   M zck_missing_chunks / zck_failed_chunks (counts only)
  *                              Q zck_find_matching_chunks(peer, this)  C<i> zck_get_chunk_data(chunk i)  S<i> ..comp_data(chunk i)
  *   recover <0|1>            final read clears the error after every failed read and reads on
+ *                              r<k> one zck_read of k bytes; what it returns is put in front of the final read's content
  *   peer <blob>              state: an intact file used as the source of Q
  *                            all on ONE context; afterwards the context is read to the end and closed ("-" = no scan)
  * output per case:
@@ -35,6 +36,8 @@ static void run_one(int idx, FILE *out, void *vctx) {
     }
     int ns = 0;
     int pfd = -1;
+    blob pre = blob_new(4096);
+    size_t npre = 0;
     zckCtx *peer = NULL;
     char *ops = strdup(k->ops), *save = NULL;
     for(char *o = strtok_r(ops, ",", &save); o; o = strtok_r(NULL, ",", &save)) {
@@ -44,6 +47,14 @@ static void run_one(int idx, FILE *out, void *vctx) {
         case 'D': r = zck_validate_data_checksum(zck); break;
         case 'F': r = zck_find_valid_chunks(zck); break;
         case 'X': zck_reset_failed_chunks(zck); r = 0; break;
+        case 'r': {
+            char tmp[256];
+            int k = atoi(o + 1);
+            if(k < 1 || k > (int)sizeof tmp) die("scan: bad read size");
+            r = zck_read(zck, tmp, k);
+            if(r > 0 && npre + r <= pre.n) { memcpy(pre.p + npre, tmp, r); npre += r; }
+            break;
+        }
         case 'M': r = zck_missing_chunks(zck) * 1000 + zck_failed_chunks(zck); break;
         case 'Q':
             if(!peer) {
@@ -77,6 +88,16 @@ static void run_one(int idx, FILE *out, void *vctx) {
     off_t pos = real_lseek(fd, 0, SEEK_CUR);
     fprintf(out, " pos=%lld", (long long)pos - (long long)zck_get_header_length(zck));
     read_res r = lib_read_ctx(zck, c->sched, c->nsched, k->disk->n * 4 + 65536, false);
+    if(npre) {
+        /* bytes handed out by partial reads during the history come first */
+        unsigned char *all = malloc(npre + r.content.n + 1);
+        memcpy(all, pre.p, npre);
+        memcpy(all + npre, r.content.p, r.content.n);
+        free(r.content.p);
+        r.content.p = all;
+        r.content.n += npre;
+    }
+    blob_free(&pre);
     zck_free(&zck);
     if(peer) { zck_free(&peer); real_close(pfd); }
     blob after = fd_contents(fd);
